@@ -15,7 +15,8 @@ R2 availability of file data (`FileToken.is_available` / `_is_path_available`): 
    `return True` only after the loop over every path; `_is_path_available` returns the result of
    `exists()` on (path, location) of the examined data location, False when the check fails, and
    invalidates that location on every path where the result is False; composite tokens
-   (ListToken/ObjectToken) are the conjunction over their members.
+   (ListToken/ObjectToken) are the conjunction over their members (the returned value is read through
+   temporaries: `tmp = all(...); return tmp`, flow-sensitive reaching definitions).
 R3 steps selected for re-execution (`GraphMapper.get_step_ids`): ports of the failed step's own
    outputs are excluded (`not in output_port_names`, and the caller passes
    `failed_step.output_ports.values()`); steps having an input port outside the mapped ports are
@@ -35,6 +36,13 @@ R5 (added) the `restore` overrides select exactly the requested tags.  Every ove
    the `on_tokens` argument; `ScatterStep.restore` builds one.  Nec.: `0.1` is a string prefix of `0.10`;
    a prefix / substring / wider filter re-scatters elements whose results stayed available and their jobs
    run again.
+R6 (added, seeded change C18b-2) per-job memos of a step are keyed by the job: in every method of a `Step` subclass
+   (class table) that takes a `Job` parameter, a `self.<attr>` mapping that the method stores into with a value
+   computed from that job (def-use, 3 levels) is a per-job memo; every key used on it in the method - store,
+   `setdefault`, `.get` / `.pop`, subscript load, `in` / `not in` - must be derived from the job parameter.  Nec.: a
+   memo of `CWLExecuteStep._is_recoverable` (WorkReuse) keyed by the step applies the first job's answer to every
+   job of the step; outputs persisted as not recoverable count as lost and their producers are re-run although
+   the data stayed available.  A memo whose value does not depend on the job is not examined.
 Undecided: the predicted re-execution counts.
 """
 
@@ -71,6 +79,7 @@ from ._util_D import (
     param_of_type,
     region,
     resolves_to,
+    returned_exprs,
     strip,
     succ,
 )
@@ -87,7 +96,7 @@ META = {
         "typing of tag-valued expressions (tag / component list / collection of tags) in every override of Step.restore "
         "and Combinator.restore (class table) decides that tags are never compared, ordered or cut as raw strings and "
         "that the filter of a FilterTokenPort built there is whole-tag membership in a collection fed only from "
-        "on_tokens. Decides the structural "
+        "on_tokens. R6: def-use of the keys of per-job memos kept by steps. Decides the structural "
         "conditions under which only lost data is expanded; it does not predict execution counts."
     ),
     "undecided": "the predicted re-execution counts per job",
@@ -488,11 +497,12 @@ def r2(ctx):
         ok = False
         if m is not None:
             rs = [n for n in m.body_nodes() if isinstance(n, ast.Return)]
-            if len(rs) == 1 and rs[0].value is not None:
-                v = strip(rs[0].value)
-                ok = is_builtin_call(p, m, v, "all") and any(
-                    isinstance(c, ast.Call) and isinstance(c.func, ast.Attribute) and c.func.attr == "is_available" for c in ast.walk(v)) and any(
-                    isinstance(x, ast.Attribute) and x.attr == "value" and isinstance(x.value, ast.Name) and x.value.id == "self" for x in ast.walk(v))
+            vals = returned_exprs(m, rs[0]) if len(rs) == 1 else []  # `tmp = all(...); return tmp` reads like `return all(...)`
+            if len(vals) == 1:
+                v = strip(vals[0])
+                ok = is_builtin_call(p, m, v, "all") and mentions(
+                    m, v, lambda c: isinstance(c, ast.Call) and isinstance(c.func, ast.Attribute) and c.func.attr == "is_available") and mentions(
+                    m, v, lambda x: isinstance(x, ast.Attribute) and x.attr == "value" and isinstance(x.value, ast.Name) and x.value.id == "self")
         ctx.ob("R2", f"{cq.rpartition('.')[2]} is available iff all of its members are", ok, qualname=cq, func=m, node=(m.node if m else p.cls(cq).node),
                instance="composite:all", message=f"{cq.rpartition('.')[2]}.is_available is not `all(member.is_available(...))`")
 
@@ -1028,9 +1038,70 @@ def r5(ctx):
             ctx.ob("R5", "the restored port admits exactly the tags of the tokens in on_tokens", not why, func=f, node=c, instance="filter:exact",
                    message=f"FilterTokenPort in {f.qualname}: {why}: tokens that were not lost pass the filter and their jobs are re-executed")
 
+# --------------------------------------------------------------------------- R6
 
-RULES = [("R1", r1), ("R2", r2), ("R3", r3), ("R4", r4), ("R5", r5)]
-FLOORS = {"R1": 9, "R2": 11, "R3": 5, "R4": 16, "R5": 8}
+
+def _self_attr(e):
+    """Name of the attribute when `e` is `self.<attr>` (optionally `.keys()`), else None."""
+    e = strip(e)
+    if isinstance(e, ast.Call) and isinstance(e.func, ast.Attribute) and e.func.attr == "keys" and not e.args:
+        e = e.func.value
+    if isinstance(e, ast.Attribute) and isinstance(e.value, ast.Name) and e.value.id == "self":
+        return e.attr
+    return None
+
+
+def r6(ctx):
+    """A memo kept by a step about one job is looked up and stored under a key derived from that job."""
+    p = ctx.prog
+    job_cls = f"{CORE_WF}.Job"
+    p.cls(job_cls)
+    found = 0
+    seen = set()
+    for cq in sorted({STEP_BASE, *p.subclasses(STEP_BASE)}):
+        for m in p.cls(cq).methods.values():
+            if m.qualname in seen:
+                continue
+            seen.add(m.qualname)
+            j = param_of_type(p, m, job_cls)
+            if j is None or any(d.kind != "param" for d in defs_of(m, j)):  # (a re-bound parameter no longer denotes the job)
+                continue
+            stores: dict[str, list] = {}
+            lookups: dict[str, list] = {}
+            for n in m.body_nodes():
+                if isinstance(n, (ast.Assign, ast.AugAssign, ast.AnnAssign)):
+                    for t in (n.targets if isinstance(n, ast.Assign) else [n.target]):
+                        if isinstance(t, ast.Subscript) and _self_attr(t.value) and n.value is not None:
+                            stores.setdefault(_self_attr(t.value), []).append((n, t.slice, n.value))
+                elif isinstance(n, ast.Call) and isinstance(n.func, ast.Attribute) and _self_attr(n.func.value) and n.args:
+                    if n.func.attr == "setdefault" and len(n.args) == 2:
+                        stores.setdefault(_self_attr(n.func.value), []).append((n, n.args[0], n.args[1]))
+                    elif n.func.attr in ("get", "pop", "__getitem__", "__contains__"):
+                        lookups.setdefault(_self_attr(n.func.value), []).append((n, n.args[0]))
+                elif isinstance(n, ast.Subscript) and isinstance(n.ctx, ast.Load) and _self_attr(n.value):
+                    lookups.setdefault(_self_attr(n.value), []).append((n, n.slice))
+                elif isinstance(n, ast.Compare) and len(n.ops) == 1 and isinstance(n.ops[0], (ast.In, ast.NotIn)) and _self_attr(n.comparators[0]):
+                    lookups.setdefault(_self_attr(n.comparators[0]), []).append((n, n.left))
+
+            def of_job(x, j=j):
+                return isinstance(x, ast.Name) and x.id == j
+
+            for attr, sts in sorted(stores.items()):
+                if not any(mentions(m, v, of_job, depth=3) for _, _, v in sts):
+                    continue  # what is stored does not depend on the job: a memo of the step, not of the job
+                for kind, (n, key) in [("store", (n_, k_)) for n_, k_, _ in sts] + [("lookup", x) for x in lookups.get(attr, [])]:
+                    found += 1
+                    ok = mentions(m, key, of_job, depth=2)
+                    ctx.ob("R6", f"{m.qualname}: the per-job memo `{attr}` is keyed by the job", ok, func=m, node=n, instance=f"memo:{attr}:{kind}:{unparse(key)}",
+                           message=f"`{unparse(n)[:90]}` in {m.qualname}: the value kept in `self.{attr}` is computed from the job `{j}` but the {kind} key `{unparse(key)}` is not "
+                           f"derived from `{j}`: the answer computed for the first job is applied to every other job of the step (scatter elements, loop iterations) - "
+                           "e.g. outputs of jobs whose reuse is enabled are persisted as not recoverable, count as lost and their jobs are re-executed by a later recovery")
+    if not found:
+        ctx.ob("R6", "no step keeps a per-job memo", True, qualname=STEP_BASE, node=p.cls(STEP_BASE).node, trivial=True)
+
+
+RULES = [("R1", r1), ("R2", r2), ("R3", r3), ("R4", r4), ("R5", r5), ("R6", r6)]
+FLOORS = {"R1": 9, "R2": 11, "R3": 5, "R4": 16, "R5": 8, "R6": 1}
 
 _BG = f"{UTILS}.ProvenanceGraph.build_graph"
 _FA = f"{TOK}.FileToken.is_available"
@@ -1039,6 +1110,8 @@ _GS = f"{UTILS}.GraphMapper.get_step_ids"
 _SR = f"{STEPM}.ScatterStep.restore"
 _LR = f"{STEPM}.LoopCombinatorStep.restore"
 _CR = "streamflow.workflow.combinator.LoopCombinator.restore"
+CWL_STEP_FILE = "streamflow/cwl/step.py"
+_IR = "streamflow.cwl.step.CWLExecuteStep._is_recoverable"
 
 _PLOOP = ("            for prev_token in prev_tokens:\n                self.add(prev_token, token)\n"
           "                if prev_token.persistent_id not in self.info_tokens.keys() and (not contains_persistent_id(prev_token.persistent_id, token_frontier)):\n"
@@ -1126,7 +1199,21 @@ VARIANTS = [
     V("any(...) over the mapped ports instead of the unmapped ones", UTILS_FILE, _GS, _CLOOP_OLD,
       "        port_rows = await asyncio.gather(*(asyncio.create_task(self.context.database.get_port(row_dependency['port'])) for row_dependency in dependency_rows))\n"
       "        if any((port_row['name'] in self.port_tokens.keys() for port_row in port_rows)):\n            step_to_remove.add(step_id)\n", "R3"),
+    # R6: per-job memo keyed by the job (seeded change C18b-2)
+    V("WorkReuse memo keyed by the step name at lookup and store (seeded)", CWL_STEP_FILE, _IR,
+      "    if (recoverable_ := self._recoverable_map.get(job.name)) is None:", "    if (recoverable_ := self._recoverable_map.get(self.name)) is None:", "R6"),
+    V("WorkReuse memo stored under the step name", CWL_STEP_FILE, _IR, "        self._recoverable_map[job.name] = recoverable_", "        self._recoverable_map[self.name] = recoverable_", "R6"),
+    V("WorkReuse memo keyed by a constant through a temporary", CWL_STEP_FILE, _IR,
+      "    if (recoverable_ := self._recoverable_map.get(job.name)) is None:", "    key = 'reuse'\n    if (recoverable_ := self._recoverable_map.get(key)) is None:", "R6"),
+    V("WorkReuse memo as membership test + subscript under the step name", CWL_STEP_FILE, _IR,
+      "    if (recoverable_ := self._recoverable_map.get(job.name)) is None:", "    recoverable_ = None\n    if self.name not in self._recoverable_map:", "R6"),
     # benign
+    V("WorkReuse memo: key through a temporary", CWL_STEP_FILE, _IR,
+      "    if (recoverable_ := self._recoverable_map.get(job.name)) is None:", "    key = job.name\n    if (recoverable_ := self._recoverable_map.get(key)) is None:", None),
+    V("WorkReuse memo: membership test and subscripts", CWL_STEP_FILE, _IR,
+      "    if (recoverable_ := self._recoverable_map.get(job.name)) is None:", "    recoverable_ = self._recoverable_map[job.name] if job.name in self._recoverable_map else None\n    if recoverable_ is None:", None),
+    V("WorkReuse memo removed (evaluated for every job)", CWL_STEP_FILE, _IR,
+      "    if (recoverable_ := self._recoverable_map.get(job.name)) is None:\n        if isinstance(self.recoverable, bool):", "    if True:\n        if isinstance(self.recoverable, bool):", None),
     V("availability through a temporary", UTILS_FILE, _BG,
       "        elif (is_available := (await token.is_available(context=self.context))):\n            self.add(token)",
       "        elif (is_available := (await token.is_available(context=self.context))) is True:\n            self.add(token)", None),
@@ -1155,6 +1242,15 @@ VARIANTS = [
     V("scatter filter narrowed further", STEP_FILE, _SR, "lambda t: t.tag in valid_tags", "lambda t: t.tag in valid_tags and (not isinstance(t, IterationTerminationToken))", None),
     V("loop restore: components through temporaries", STEP_FILE, _LR, "            if len(parent_tag.split('.')) != len(token.tag.split('.')):",
       "            parent_parts = parent_tag.split('.')\n            own_parts = token.tag.split('.')\n            logger.debug(f'restoring from {token.tag}')\n            if len(parent_parts) != len(own_parts):", None),
+    V("ListToken availability returned through a temporary (tempret)", TOKEN_FILE, f"{TOK}.ListToken.is_available",
+      "    return all(await asyncio.gather(*(asyncio.create_task(t.is_available(context)) for t in self.value)))",
+      "    _sf_ret = all(await asyncio.gather(*(asyncio.create_task(t.is_available(context)) for t in self.value)))\n    return _sf_ret", None),
+    V("ObjectToken availability returned through two temporaries", TOKEN_FILE, f"{TOK}.ObjectToken.is_available",
+      "    return all(await asyncio.gather(*(asyncio.create_task(t.is_available(context)) for t in self.value.values())))",
+      "    answers = await asyncio.gather(*(asyncio.create_task(t.is_available(context)) for t in self.value.values()))\n    res = all(answers)\n    return res", None),
+    V("ListToken availability: temporary overwritten before the return", TOKEN_FILE, f"{TOK}.ListToken.is_available",
+      "    return all(await asyncio.gather(*(asyncio.create_task(t.is_available(context)) for t in self.value)))",
+      "    _sf_ret = all(await asyncio.gather(*(asyncio.create_task(t.is_available(context)) for t in self.value)))\n    _sf_ret = True\n    return _sf_ret", "R2"),
     V("loop combinator restore: last component through rsplit", COMB_FILE, _CR, "int(iteration.split('.')[-1])", "int(iteration.rsplit('.', 1)[-1])", None),
     # producer loop extracted into a helper (B8-5) / collected with any(...) over a temporary (B8-6)
     V("producer loop extracted into a helper function", UTILS_FILE, _BG, _PLOOP, "            _link_producers(self, token, prev_tokens, token_frontier)\n", None,
